@@ -46,6 +46,9 @@ func (r Report) isEqual(nr Report) bool {
 	if nr.Problem.Summary != r.Problem.Summary {
 		return false
 	}
+	if nr.Problem.Details != r.Problem.Details {
+		return false
+	}
 	if !isSameDiagnostics(nr.Problem.Diagnostics, r.Problem.Diagnostics) {
 		return false
 	}
@@ -161,6 +164,7 @@ func (s *Summary) SortReports() {
 			cmp.Compare(a.Problem.Severity, b.Problem.Severity),
 			cmp.Compare(a.Problem.Reporter, b.Problem.Reporter),
 			cmp.Compare(a.Problem.Summary, b.Problem.Summary),
+			cmp.Compare(a.Problem.Details, b.Problem.Details),
 			cmpDiagnostics(a.Problem.Diagnostics, b.Problem.Diagnostics),
 		)
 	})
